@@ -220,7 +220,7 @@ def execute(sc):
             'sim_us': st.world.now - st.world.epoch_us, 'evals': 1 + V.counters.get('solo_replays', 0), 'sample': sample}
 
 
-def execute_sink(sc):
+def execute_sink(sc, post=None):
     """workload B: open / message / close / re-open on the ConnectionIDSink interface, as a backend does"""
     from .. import track
     V = common.Viol()
@@ -323,6 +323,8 @@ def execute_sink(sc):
         closed = sorted(o.notice[2] for o in L.out_items(rec) if o.kind == 'notice' and o.notice[0] == 'Closed')
         if closed != sorted(e[0] for e in model_all if not e[2]):
             V.add('C04/close-notice', 'sink', 'Closed notices %r, expected %r' % (closed, sorted(e[0] for e in model_all if not e[2])))
+    if post is not None and exc is None:
+        post(cm, ctl, rec, model_all, V)
     if reopened:
         V.bump('probe_identifier_reopened')
     key = ''.join(o[0][0] + str(o[1] if len(o) > 1 else '') for o in sc['sink_ops'])
